@@ -13,7 +13,7 @@ RULE = ("every sequence of length N over N symbols (every multiplicity pattern i
 ASSUMPTIONS = ["int/int true division is correctly rounded, so equality with float(Fraction) is exact",
                "table cells never contain the join characters '.' or '_' (outside the property); missing is spelled either '' or None/NaN, one spelling per table",
                "a 2-tuple is the legacy (alpha, beta) form and is not used as a plain sample container"]
-REQUIRED_CLASSES = {"all": ["reordering", "relabelling", "table-missing-cell", "table-collision-without-separator", "two-sample", "legacy-tuple", "two-table"]}
+REQUIRED_CLASSES = {"all": ["reordering", "relabelling", "table-missing-cell", "table-collision-without-separator", "two-sample", "legacy-tuple", "two-table", "negative-int-cells"]}
 MIN_OUTCOMES = 8
 
 LABELS = {
@@ -25,6 +25,7 @@ LABELS = {
 TEXT = ("A", "AB", "BA", None)       # None = the empty/missing cell
 TEXT3 = ("A", "AB", None)
 INTS = (1, 11)
+NEGS = (-1, -2, 2)        # hash(-1) == hash(-2) in CPython
 
 
 def spaces(tier):
@@ -44,10 +45,11 @@ def spaces(tier):
     def gen_tables():
         # (column types, max rows)
         plans = [(("t",), 4), (("i",), 4), (("t", "t"), 3), (("t", "i"), 3 if q else 4), (("i", "i"), 4), (("t3", "t3", "t3"), 2 if q else 3), (("t3", "i", "t3"), 2 if q else 3)]
+        plans += [(("n",), 3), (("n", "t3"), 2 if q else 3), (("n", "n"), 2 if q else 3)]
         if not q:
             plans += [(("t", "t"), 4), (("i", "i", "i", "i"), 3), (("t3", "t3", "i", "i"), 2)]
         for types, maxrows in plans:
-            alph = [TEXT if t == "t" else TEXT3 if t == "t3" else INTS for t in types]
+            alph = [TEXT if t == "t" else TEXT3 if t == "t3" else NEGS if t == "n" else INTS for t in types]
             rows = list(itertools.product(*alph))
             for n in range(2, maxrows + 1):
                 for table in itertools.product(rows, repeat=n):
@@ -198,6 +200,8 @@ def _check_table(acc, case, spell=None):
     joined = ["".join("" if v is None else str(v) for v in row) for row in table]
     if ref_pc(joined) != exp:
         acc.cls("table-collision-without-separator")
+    if "n" in types:
+        acc.cls("negative-int-cells")
     counts = [list(table).count(r) for r in set(table)]
     cols = ["c%d" % i for i in range(len(types))]
     spells = (("none", "empty-string", "nan") if has_missing else ("none",)) if spell is None else (spell,)
@@ -216,6 +220,11 @@ def _check_table(acc, case, spell=None):
             acc.fail("pc_joint/%s%s" % ("missing-cell" if has_missing else "complete", "/raised-" + r.type if raised(r) else ""), rcase, exp, r)
         else:
             acc.ok(("pcj", float(exp)), nontrivial=nt)
+        r = acc.call(pyrepseq.pc_joint, df, cols, gap_token="|")
+        if not _exact(r, exp):
+            acc.fail("pc_joint/gap_token", rcase, exp, r)
+        else:
+            acc.ok()
         # sub-selection of columns: pc_joint on a subset == pc of the projected rows
         if len(types) > 1:
             sub = cols[:-1]
@@ -254,8 +263,11 @@ def _check_tables2(acc, case):
             acc.fail("pc/two-tables", case, exp, r)
         else:
             acc.ok(("pct2", float(exp)), nontrivial=exp > 0)
-        r = acc.call(pyrepseq.pc_joint, d1, cols, d2)
-        if not _exact(r, exp):
-            acc.fail("pc_joint/two-tables%s" % ("/raised-" + r.type if raised(r) else ""), case, exp, r)
-        else:
-            acc.ok()
+        for gt in (None, "|", ""):
+            if gt == "" and True:
+                continue    # an empty join token is outside the property (cells could run together)
+            r = acc.call(pyrepseq.pc_joint, d1, cols, d2, **({} if gt is None else {"gap_token": gt}))
+            if not _exact(r, exp):
+                acc.fail("pc_joint/two-tables%s%s" % ("/gap_token" if gt else "", "/raised-" + r.type if raised(r) else ""), case, exp, r)
+            else:
+                acc.ok()
